@@ -541,7 +541,7 @@ func init() {
 		"(*sync.RWMutex).RLock", "(*sync.RWMutex).RUnlock", "(*sync.WaitGroup).Add", "(*sync.WaitGroup).Done",
 		"(*sync.WaitGroup).Wait", "(*sync.Pool).Put", "runtime.KeepAlive", "runtime.SetFinalizer", "runtime.Gosched",
 		"(*sync.Cond).Broadcast", "(*sync.Cond).Signal", "runtime.GC", "(*internal/godebug.Setting).IncNonDefault",
-		"os.Exit", "time.Sleep",
+		"os.Exit", "time.Sleep", "sync.runtime_registerPoolCleanup", "sync.runtime_notifyListCheck",
 		"(*github.com/google/trillian/monitoring.InertFloat).Inc", "(*github.com/google/trillian/monitoring.InertFloat).Dec",
 		"(*github.com/google/trillian/monitoring.InertFloat).Add", "(*github.com/google/trillian/monitoring.InertFloat).Set",
 		"(*github.com/google/trillian/monitoring.InertFloat).Value", "(*github.com/google/trillian/monitoring.InertDistribution).Observe",
